@@ -14,27 +14,41 @@ import MdkVerif.Proofs.Keyring
     * SQLCipher: the validation read fails iff the key is wrong (`OpenMatrix.sqlOpen`), every page of the
       main file / rollback journal / WAL is encrypted, `temp_store = MEMORY` keeps temp data off disk;
     * the file system: `O_CREAT|O_EXCL` is atomic, `chmod` does what it says;
-    * `std::sync::Mutex` is a mutex; a keyring-core call is atomic.
+    * `std::sync::Mutex` is a mutex, poisoned exactly by a panic of its holder; a keyring-core call is
+      atomic; a credential call that panics does so before it has changed the store.
 -/
 namespace MdkVerif.Props.C13
 open MdkVerif MdkVerif.Keyring MdkVerif.OpenMatrix
 
-/-! ## 1. `get_or_create_db_key`: one key, for every number of threads and every schedule -/
+/-! ## 1. `get_or_create_db_key`: one key, for every number of threads and every schedule
 
-/-- **keyring_once.**  For every initial keyring content, every number of callers and every schedule
-    (any interleaving of their steps, any keys `generate()` may return — even colliding ones —, any
-    keyring / RNG failures at any step) that contains no `delete_db_key`:
+  The model takes as a PARAMETER what the code does when KEY_GENERATION_LOCK is poisoned (a thread
+  panicked while holding it): fail closed, or go on without the guard.  The theorems instantiate it with
+  the fact `Generated.lockPoisonFailsClosed`, re-extracted from keyring.rs on every run; the closed
+  counter-example `no_guard_two_keys` shows what happens for the other value. -/
+
+/-- how the code treats a poisoned lock (`true`: `lock().map_err(..)?` — fail closed) -/
+abbrev fc : Bool := Generated.lockPoisonFailsClosed
+
+/-- the current source propagates the error of `lock()`; if this stops checking, every theorem of this
+    section is about a different program than the one in /repo -/
+theorem lpfc_true : Generated.lockPoisonFailsClosed = true := rfl
+
+/-- **keyring_once.**  For every initial keyring content, a lock that is poisoned already or not, every
+    number of callers and every schedule (any interleaving of their steps, any keys `generate()` may
+    return — even colliding ones —, any keyring / RNG failures at any step, ANY NUMBER OF PANICS of any
+    caller at any point) that contains no `delete_db_key`:
     at most one key is ever stored; every caller that returned `Ok` returned the key that is in the
     keyring, hence all of them the same key; and if the keyring already held a key nothing is stored
     and everybody returns that key. -/
-theorem keyring_once (r0 : Option Nat) (sched : List Ev) (hnd : noDelete sched = true) :
-    let s := run (init r0) sched
+theorem keyring_once (r0 : Option Nat) (p : Bool) (sched : List Ev) (hnd : noDelete sched = true) :
+    let s := run fc (init r0 p) sched
     s.stores ≤ 1 ∧
     (∀ t k, s.pc t = .done k → s.ring = some k) ∧
     (∀ t u k k', s.pc t = .done k → s.pc u = .done k' → k = k') ∧
     (∀ k0, r0 = some k0 → s.stores = 0 ∧ ∀ t k, s.pc t = .done k → k = k0) := by
   intro s
-  have h : InvN r0 s := invN_run r0 (init r0) sched hnd (invN_init r0)
+  have h : InvN r0 s := invN_run r0 (init r0 p) sched hnd (invN_init r0 p)
   refine ⟨?_, h.doneKey, ?_, ?_⟩
   · have := h.base.storesBound; rw [h.noDel] at this; split at this <;> omega
   · intro t u k k' ht hu
@@ -47,36 +61,54 @@ theorem keyring_once (r0 : Option Nat) (sched : List Ev) (hnd : noDelete sched =
     have a := h.doneKey t k ht; rw [h1] at a; exact (Option.some.inj a).symm
 
 /-- the hypothesis of `keyring_once` is satisfiable by a non-trivial schedule: three callers, fast
-    paths first, then the lock is handed round; one of them stores, all three return key 7 -/
+    paths first, then the lock is handed round; one of them stores, all three return key 8 -/
 example :
     let sched : List Ev := [.step 1 7 true, .step 2 8 true, .step 3 9 true, .step 2 8 true, .step 1 7 true,
       .step 2 8 true, .step 3 9 true, .step 2 8 true, .step 2 8 true, .step 1 7 true, .step 1 7 true,
       .step 3 9 true, .step 3 9 true]
-    noDelete sched = true ∧ (run (init none) sched).stores = 1 ∧
-    (run (init none) sched).pc 1 = .done 8 ∧ (run (init none) sched).pc 2 = .done 8 ∧
-    (run (init none) sched).pc 3 = .done 8 := by decide
+    noDelete sched = true ∧ (run fc (init none) sched).stores = 1 ∧
+    (run fc (init none) sched).pc 1 = .done 8 ∧ (run fc (init none) sched).pc 2 = .done 8 ∧
+    (run fc (init none) sched).pc 3 = .done 8 := by decide
 
-/-- mutual exclusion of the locked section — for EVERY schedule, deletes and failures included -/
-theorem keyring_mutex (r0 : Option Nat) (sched : List Ev) (t u : Nat)
-    (ht : ((run (init r0) sched).pc t).inCs = true) (hu : ((run (init r0) sched).pc u).inCs = true) :
+/-- … and by one with panics: caller 1 panics on its fast path (outside the lock: no poisoning), caller
+    2 creates key 8, caller 3 panics while waiting for the lock, caller 4 then finds key 8 -/
+example :
+    let sched : List Ev := [.panic 1, .step 2 8 true, .step 3 9 true, .step 2 8 true, .panic 3, .step 2 8 true,
+      .step 2 8 true, .step 2 8 true, .step 4 5 true]
+    noDelete sched = true ∧ (run fc (init none) sched).stores = 1 ∧ (run fc (init none) sched).poisoned = false ∧
+    (run fc (init none) sched).pc 1 = .failed ∧ (run fc (init none) sched).pc 2 = .done 8 ∧
+    (run fc (init none) sched).pc 3 = .failed ∧ (run fc (init none) sched).pc 4 = .done 8 := by decide
+
+/-- mutual exclusion of the locked section — for EVERY schedule, deletes, failures and panics included -/
+theorem keyring_mutex (r0 : Option Nat) (p : Bool) (sched : List Ev) (t u : Nat)
+    (ht : ((run fc (init r0 p) sched).pc t).inCs = true) (hu : ((run fc (init r0 p) sched).pc u).inCs = true) :
     t = u :=
-  (inv_run (init r0) sched (inv_init r0)).cs_unique ht hu
+  (inv_run (init r0 p) sched (inv_init r0 p)).cs_unique ht hu
+
+/-- … and whoever is inside holds the lock, and the lock is held only by a caller inside: a panic
+    releases it (the guard is dropped while unwinding) -/
+theorem keyring_lock_iff_inside (r0 : Option Nat) (p : Bool) (sched : List Ev) (t : Nat) :
+    (run fc (init r0 p) sched).lock = some t ↔ ((run fc (init r0 p) sched).pc t).inCs = true :=
+  ⟨lockHeld_run (init r0 p) sched (inv_init r0 p) (lockHeld_init r0 p) t,
+   (inv_run (init r0 p) sched (inv_init r0 p)).lockOwner t⟩
 
 /-- every schedule, deletes included: a key is stored at most once per deletion, plus once -/
-theorem keyring_stores_bound (r0 : Option Nat) (sched : List Ev) :
-    (run (init r0) sched).stores ≤ (run (init r0) sched).deletes + 1 := by
-  have := (inv_run (init r0) sched (inv_init r0)).storesBound
+theorem keyring_stores_bound (r0 : Option Nat) (p : Bool) (sched : List Ev) :
+    (run fc (init r0 p) sched).stores ≤ (run fc (init r0 p) sched).deletes + 1 := by
+  have hi : Inv (run fc (init r0 p) sched) := inv_run (init r0 p) sched (inv_init r0 p)
+  have := hi.storesBound
   split at this <;> omega
 
 /-- a caller never stores over an existing entry: whoever is about to store sees an empty keyring -/
-theorem keyring_store_only_when_empty (r0 : Option Nat) (sched : List Ev) (t k : Nat)
-    (h : (run (init r0) sched).pc t = .store k) : (run (init r0) sched).ring = none :=
-  (inv_run (init r0) sched (inv_init r0)).sawNone t (by simp [h, Pc.sawNone])
+theorem keyring_store_only_when_empty (r0 : Option Nat) (p : Bool) (sched : List Ev) (t k : Nat)
+    (h : (run fc (init r0 p) sched).pc t = .store k) : (run fc (init r0 p) sched).ring = none := by
+  have hi : Inv (run fc (init r0 p) sched) := inv_run (init r0 p) sched (inv_init r0 p)
+  exact hi.sawNone t (by simp [h, Pc.sawNone])
 
 /-- the full-strength statement WITHOUT the no-delete hypothesis … -/
 def keyring_once_full : Prop :=
   ∀ (r0 : Option Nat) (sched : List Ev) (t u k k' : Nat),
-    (run (init r0) sched).pc t = .done k → (run (init r0) sched).pc u = .done k' → k = k'
+    (run fc (init r0) sched).pc t = .done k → (run fc (init r0) sched).pc u = .done k' → k = k'
 
 /-- … is false, by design of `delete_db_key` (documented: "Delete and recreate generates a new key"):
     caller 1 creates key 7, the key is deleted, caller 2 creates key 8.  This is the reason for the
@@ -87,6 +119,97 @@ theorem keyring_once_full_false : ¬ keyring_once_full := by
     .step 2 8 true, .step 2 8 true, .step 2 8 true, .step 2 8 true, .step 2 8 true]) 1 2 7 8
     (by decide) (by decide)
   cases this
+
+/-! ### a poisoned KEY_GENERATION_LOCK -/
+
+/-- **poisoned_fails_closed.**  Once the lock is poisoned (state `s1`, reached by any schedule `pre` from
+    any start), whatever happens afterwards (`post`: any steps of any callers, new callers, failures,
+    deletes, further panics): the lock stays poisoned; NO key is ever stored again; the keyring entry
+    is the one of `s1` (or gone, if somebody deletes it); nobody is inside the locked section; and a
+    caller that returns `Ok k` had returned it already or read `k` from the keyring, where it was
+    already in `s1`.  (Fail closed: callers that would have to create a key get `Err`.) -/
+theorem poisoned_fails_closed (r0 : Option Nat) (p : Bool) (pre post : List Ev)
+    (hp : (run fc (init r0 p) pre).poisoned = true) :
+    let s1 := run fc (init r0 p) pre
+    let s2 := run fc (init r0 p) (pre ++ post)
+    s2.poisoned = true ∧ s2.stores = s1.stores ∧ (s2.ring = s1.ring ∨ s2.ring = none) ∧
+    (noDelete post = true → s2.ring = s1.ring) ∧
+    (∀ t k, s2.pc t = .done k → s1.pc t = .done k ∨ s1.ring = some k) ∧
+    (∀ t, (s2.pc t).inCs = false) := by
+  intro s1 s2
+  have hi : Inv s1 := inv_run (init r0 p) pre (inv_init r0 p)
+  have e2 : s2 = run fc s1 post := run_append fc (init r0 p) pre post
+  have h : Frozen s1 s2 := by rw [e2]; exact frozen_run s1 s1 post (frozen_refl s1 hi hp)
+  refine ⟨h.poisoned, h.stores, h.ring, ?_, h.done, ?_⟩
+  · intro hnd
+    apply h.ringKeep
+    rw [e2]; exact run_noDelete_deletes fc s1 post hnd
+  · intro t
+    cases hcs : (s2.pc t).inCs with
+    | false => rfl
+    | true =>
+      have a := h.inv.lockOwner t hcs
+      rw [h.inv.poisonFree h.poisoned] at a; cases a
+
+/-- the hypothesis is satisfiable, and the conclusion bites: caller 1 panics at its re-read under the
+    lock; caller 2 (already past its fast path) and the late caller 3 both get `Err`; nothing stored -/
+example :
+    let pre : List Ev := [.step 1 0 true, .step 2 0 true, .step 1 0 true, .panic 1]
+    let post : List Ev := [.step 2 7 true, .step 3 8 true, .step 3 8 true]
+    (run fc (init none) pre).poisoned = true ∧ (run fc (init none) (pre ++ post)).stores = 0 ∧
+    (run fc (init none) (pre ++ post)).pc 2 = .failed ∧ (run fc (init none) (pre ++ post)).pc 3 = .failed := by
+  decide
+
+/-- … while a caller that finds the key on the lock-free fast path still succeeds under a poisoned lock -/
+example : (run fc (init (some 3) true) [.step 1 0 true]).pc 1 = .done 3 := by decide
+
+/-- **poison_only_by_panic_in_cs.**  The lock of a process that started un-poisoned is poisoned only if,
+    earlier in the schedule, some caller panicked while it held the lock, inside the locked section. -/
+theorem poison_only_by_panic_in_cs (r0 : Option Nat) (sched : List Ev)
+    (h : (run fc (init r0) sched).poisoned = true) :
+    ∃ pre t post, sched = pre ++ .panic t :: post ∧ (run fc (init r0) pre).lock = some t ∧
+      ((run fc (init r0) pre).pc t).inCs = true := by
+  obtain ⟨pre, t, post, h1, h2⟩ := run_poisons fc (init r0) sched rfl h
+  exact ⟨pre, t, post, h1, h2, lockHeld_run (init r0) pre (inv_init r0 false) (lockHeld_init r0 false) t h2⟩
+
+/-- in particular: no panic, no poisoning — and panics outside the locked section do not poison either
+    (second example after `keyring_once`) -/
+theorem no_panic_no_poison (r0 : Option Nat) (sched : List Ev) (hnp : sched.all (fun e => !e.isPanic) = true) :
+    (run fc (init r0) sched).poisoned = false :=
+  run_no_panic_poisoned fc (init r0) sched hnp
+
+example : (run fc (init none) [.step 1 0 true, .step 1 0 true, .step 1 0 true, .step 1 7 true, .panic 1]).poisoned = true ∧
+    (run fc (init none) [.step 1 0 true, .step 1 0 true, .step 1 0 true, .step 1 7 true, .panic 1]).lock = none := by decide
+
+/-- the statement of `keyring_once` for a program that goes on WITHOUT the guard when the lock is
+    poisoned (`lock().ok()`) … -/
+def keyring_once_without_guard : Prop :=
+  ∀ (r0 : Option Nat) (sched : List Ev), noDelete sched = true →
+    (run false (init r0) sched).stores ≤ 1 ∧
+    ∀ t u k k', (run false (init r0) sched).pc t = .done k → (run false (init r0) sched).pc u = .done k' → k = k'
+
+/-- **no_guard_two_keys.**  … is FALSE: caller 1 takes the lock and panics (one panic: the lock is
+    poisoned); callers 2 and 3 pass their fast paths, both "acquire" the poisoned lock and go on, both
+    re-read an empty keyring, both generate, both store: two keys stored, two different keys returned,
+    the keyring keeps the last one.  Under the fail-closed rule the same schedule stores nothing and
+    both callers get `Err`. -/
+theorem no_guard_two_keys :
+    let sched : List Ev := [.step 1 0 true, .step 1 0 true, .panic 1,
+      .step 2 7 true, .step 3 8 true, .step 2 7 true, .step 3 8 true, .step 2 7 true, .step 3 8 true,
+      .step 2 7 true, .step 3 8 true, .step 2 7 true, .step 3 8 true]
+    (sched.filter Ev.isPanic).length = 1 ∧ noDelete sched = true ∧
+    (run false (init none) sched).stores = 2 ∧
+    (run false (init none) sched).pc 2 = .done 7 ∧ (run false (init none) sched).pc 3 = .done 8 ∧
+    (run false (init none) sched).ring = some 8 ∧
+    (run true (init none) sched).stores = 0 ∧
+    (run true (init none) sched).pc 2 = .failed ∧ (run true (init none) sched).pc 3 = .failed := by decide
+
+theorem keyring_once_without_guard_false : ¬ keyring_once_without_guard := by
+  intro h
+  have := (h none [.step 1 0 true, .step 1 0 true, .panic 1,
+      .step 2 7 true, .step 3 8 true, .step 2 7 true, .step 3 8 true, .step 2 7 true, .step 3 8 true,
+      .step 2 7 true, .step 3 8 true, .step 2 7 true, .step 3 8 true] (by decide)).1
+  revert this; decide
 
 /-- **keyring_shape.**  The step list of the model (read → lock → read → generate → store) is the call
     sequence `tools/gen_model.py` extracts from the body of `get_or_create_db_key` on every run, the lock
@@ -100,8 +223,8 @@ theorem keyring_shape :
 /-- `shape` is not a free-standing constant: it is the sequence of steps a lone caller of the model
     performs (oldest first) -/
 theorem shape_is_lone_trace :
-    ((run (init none) (aloneSched 0 7)).trace.reverse.map (·.2)) = Keyring.shape ∧
-    (run (init none) (aloneSched 0 7)).pc 0 = .done 7 := by decide
+    ((run fc (init none) (aloneSched 0 7)).trace.reverse.map (·.2)) = Keyring.shape ∧
+    (run fc (init none) (aloneSched 0 7)).pc 0 = .done 7 := by decide
 
 /-! ## 2. the constructor × file state × keyring state matrix -/
 
@@ -306,8 +429,8 @@ theorem unset_store_reports_keyring_kind (w : World) (fresh : Nat) (hr : w.ring 
 /-- the sequential `get_or_create_db_key` of the matrix is the interleaving model run by a lone caller -/
 theorem getOrCreate_is_lone_run (fresh : Nat) :
     (∀ w : World, w.ring = .none → (getOrCreate w fresh).2 = .ok fresh ∧ (getOrCreate w fresh).1.ring = .key fresh) ∧
-    (run (init none) (aloneSched 0 fresh)).pc 0 = .done fresh ∧ (run (init none) (aloneSched 0 fresh)).ring = some fresh ∧
-    (∀ k, (run (init (some k)) (aloneSched 0 fresh)).pc 0 = .done k ∧ (run (init (some k)) (aloneSched 0 fresh)).stores = 0) := by
+    (run fc (init none) (aloneSched 0 fresh)).pc 0 = .done fresh ∧ (run fc (init none) (aloneSched 0 fresh)).ring = some fresh ∧
+    (∀ k, (run fc (init (some k)) (aloneSched 0 fresh)).pc 0 = .done k ∧ (run fc (init (some k)) (aloneSched 0 fresh)).stores = 0) := by
   refine ⟨?_, ?_, ?_, ?_⟩
   · intro w hr; obtain ⟨file, ring, fmode, dir, stores⟩ := w; simp only at hr; subst hr
     simp [getOrCreate, getDbKey]
@@ -318,52 +441,93 @@ theorem getOrCreate_is_lone_run (fresh : Nat) :
 /-! ## 3. concurrent first opens through `MdkSqliteStorage::new` -/
 
 /-- **for every number of threads and every schedule** of concurrent `new` calls on one missing path
-    with an empty, working keyring: at most one key is stored; every caller that opens does so under the
-    key in the keyring (so all under the same key) and the file is encrypted under it; nobody ever gets
-    `WrongEncryptionKey`; the lock is held by at most one caller. -/
-theorem concurrent_new_safe (sched : List (Nat × Nat)) :
-    let s := nrun ninit sched
+    with an empty, working keyring — ANY NUMBER OF PANICS of any caller at any point included, the lock
+    poisoned from the start (`p`) or not: at most one key is stored; every caller that opens does so
+    under the key in the keyring (so all under the same key) and the file is encrypted under it; nobody
+    ever gets `WrongEncryptionKey`; `Error::Keyring` is returned only when the lock is poisoned — never
+    in a run without panics that starts un-poisoned. -/
+theorem concurrent_new_safe (p : Bool) (sched : List NEv) :
+    let s := nrun fc (ninit p) sched
     s.k.stores ≤ 1 ∧
     (∀ t k, s.pc t = .ok k → s.k.ring = some k ∧ s.file = .enc k) ∧
     (∀ t u k k', s.pc t = .ok k → s.pc u = .ok k' → k = k') ∧
-    (∀ t, s.pc t ≠ .err .wrongKey ∧ s.pc t ≠ .err .keyring) := by
+    (∀ t, s.pc t ≠ .err .wrongKey) ∧
+    (∀ t, s.pc t = .err .keyring → s.k.poisoned = true) ∧
+    (p = false → sched.all (fun e => !e.isPanic) = true → ∀ t, s.pc t ≠ .err .keyring) := by
   intro s
-  have h : NInv s := ninv_run ninit sched ninv_init
+  have h : NInv s := ninv_run (ninit p) sched (ninv_init p)
   have hok : ∀ t k, s.pc t = .ok k → s.k.ring = some k := fun t k ht => h.keyIsRing t k (by simp [ht, NPc.key])
-  refine ⟨?_, ?_, ?_, fun t => ⟨h.noWrongKey t, h.noKeyringErr t⟩⟩
+  refine ⟨?_, ?_, ?_, h.noWrongKey, h.keyringErr, ?_⟩
   · have := h.base.base.storesBound; rw [h.base.noDel] at this; split at this <;> omega
   · intro t k ht
-    refine ⟨hok t k ht, ?_⟩
-    exact nokfile_run ninit sched nokfile_init t k ht
+    exact ⟨hok t k ht, h.okFile t k ht⟩
   · intro t u k k' ht hu
     have a := hok t k ht; have b := hok u k' hu
     rw [a] at b; exact Option.some.inj b
+  · intro hp hnp t ht
+    have a := h.keyringErr t ht
+    have b : s.k.poisoned = (ninit p).k.poisoned := nrun_no_panic_poisoned fc (ninit p) sched hnp
+    rw [b, hp] at a; simp [ninit, init] at a
+
+/-- a run with panics that satisfies everything above non-trivially: the creator (1) panics at its
+    re-read under the lock → poisoned; follower 2 is refused (empty file, no key); a later creator-less
+    world: nobody opens, nothing stored -/
+example :
+    let sched : List NEv := [.step 1 0, .step 1 0, .step 1 0, .panic 1, .step 2 0, .step 2 0, .step 2 0]
+    (nrun fc ninit sched).k.poisoned = true ∧ (nrun fc ninit sched).pc 1 = .panicked ∧
+    (nrun fc ninit sched).pc 2 = .err .unencrypted ∧ (nrun fc ninit sched).k.stores = 0 := by decide
+
+/-- under a lock that is poisoned from the start `new` creates nothing: no key is stored, nobody opens,
+    the file is never written (the creator leaves the 0-byte file of `failed_first_open_bricks_path`) -/
+theorem concurrent_new_poisoned (sched : List NEv) :
+    let s := nrun fc (ninit true) sched
+    s.k.stores = 0 ∧ s.k.ring = none ∧ (∀ t k, s.pc t ≠ .ok k) ∧ (s.file = .missing ∨ s.file = .empty) := by
+  intro s
+  have h : NInv s := ninv_run (ninit true) sched (ninv_init true)
+  have hf : Frozen (ninit true).k s.k :=
+    nfrozen_run (ninit true).k (ninit true) sched (frozen_refl _ (inv_init none true) rfl)
+  have hr : s.k.ring = none := by
+    rcases hf.ring with h1 | h1
+    · rw [h1]; rfl
+    · exact h1
+  refine ⟨by rw [hf.stores]; rfl, hr, ?_, ?_⟩
+  · intro t k ht
+    have := h.keyIsRing t k (by simp [ht, NPc.key]); rw [hr] at this; cases this
+  · cases hfile : s.file with
+    | missing => exact .inl rfl
+    | empty => exact .inr rfl
+    | enc k => have := h.fileKey k hfile; rw [hr] at this; cases this
+
+example : (nrun fc (ninit true) (nsteps [(1, 7), (1, 7), (1, 7), (1, 7)])).pc 1 = .err .keyring ∧
+    (nrun fc (ninit true) (nsteps [(1, 7), (1, 7), (1, 7), (1, 7)])).file = .empty := by decide
 
 /-- the full-strength statement "…and every caller succeeds" … -/
 def concurrent_new_full : Prop :=
-  ∀ (sched : List (Nat × Nat)) (t : Nat) (e : NErr), (nrun ninit sched).pc t ≠ .err e
+  ∀ (sched : List NEv) (t : Nat) (e : NErr), (nrun fc ninit sched).pc t ≠ .err e
 
-/-- … is FALSE of the code: caller 1 creates the file (`Created`), caller 2 finds it (`AlreadyExisted`),
-    reads the keyring before caller 1 has stored the key, probes the still empty file and returns
-    `UnencryptedDatabaseWithEncryption`.  The comment in `new` ("check the keyring FIRST … handles the
-    race") covers only the window after the key is stored.  Replayed on the implementation by
-    `corpus/C13/concurrent_first_open.trace`; observed there without any scheduling help, too. -/
+/-- … is FALSE of the code (no panic needed): caller 1 creates the file (`Created`), caller 2 finds it
+    (`AlreadyExisted`), reads the keyring before caller 1 has stored the key, probes the still empty
+    file and returns `UnencryptedDatabaseWithEncryption`.  The comment in `new` ("check the keyring
+    FIRST … handles the race") covers only the window after the key is stored.  Replayed on the
+    implementation by `corpus/C13/concurrent_first_open.trace`; observed there without any scheduling
+    help, too. -/
 theorem concurrent_new_full_false : ¬ concurrent_new_full := by
   intro h
-  exact h [(1, 0), (2, 0), (2, 0), (2, 0)] 2 .unencrypted (by decide)
+  exact h (nsteps [(1, 0), (2, 0), (2, 0), (2, 0)]) 2 .unencrypted (by decide)
 
 /-- what holds instead: a caller can only lose with `UnencryptedDatabaseWithEncryption` or
     `KeyringEntryMissing…`, and only if it looked at the keyring before the creator stored the key;
-    when one caller completes before the others start, everybody succeeds, under one key. -/
-theorem concurrent_new_partial (t f : Nat) (rest : List (Nat × Nat)) :
-    let s := nrun ninit (List.replicate 8 (t, f) ++ rest)
-    ∀ u, s.pc u = .pre ∨ s.pc u = .chk ∨ s.pc u = .opening f ∨ s.pc u = .ok f := by
+    when one caller completes before the others start, everybody who does not panic succeeds, under
+    one key. -/
+theorem concurrent_new_partial (t f : Nat) (rest : List NEv) :
+    let s := nrun fc ninit (List.replicate 8 (.step t f) ++ rest)
+    ∀ u, s.pc u = .pre ∨ s.pc u = .chk ∨ s.pc u = .opening f ∨ s.pc u = .ok f ∨ s.pc u = .panicked := by
   intro s u
-  have h := ndone_run f _ rest (creator_prefix_done t f)
+  have h := ndone_run fc f _ rest (creator_prefix_done fc t f)
   rw [← nrun_append] at h
   exact h.pcs u
 
-example : (nrun ninit (List.replicate 8 (1, 7) ++ [(2, 0), (3, 0), (2, 0), (3, 0), (2, 0), (3, 0)])).pc 3 = .ok 7 := by
+example : (nrun fc ninit (List.replicate 8 (.step 1 7) ++ nsteps [(2, 0), (3, 0), (2, 0), (3, 0), (2, 0), (3, 0)])).pc 3 = .ok 7 := by
   decide
 
 end MdkVerif.Props.C13
